@@ -53,6 +53,7 @@ type Decoder struct {
 	err            error
 	literal        bool
 	literalNonSync bool
+	lineTail       string
 	crlf           bool
 	listDepth      int
 }
@@ -240,6 +241,7 @@ func (dec *Decoder) Text(ptr *string) bool {
 		return false
 	}
 	*ptr = sb.String()
+	dec.lineTail = *ptr // text always extends to the end of the line
 	return true
 }
 
@@ -265,9 +267,10 @@ func (dec *Decoder) DiscardLine() {
 	}
 	var text string
 	dec.Text(&text)
-	if dec.CRLF() && dec.side == ConnSideServer && hasNonSyncLiteralSuffix(text) {
+	if dec.CRLF() && dec.side == ConnSideServer && hasNonSyncLiteralSuffix(dec.lineTail) {
 		// The discarded line announces a non-synchronizing literal which
-		// nobody is going to read
+		// nobody is going to read (the header may already have been read as
+		// text, e.g. as an AUTHENTICATE initial response)
 		dec.literal = true
 		dec.literalNonSync = true
 	}
